@@ -3,9 +3,11 @@
    Proofs/C08Proofs.v and followed by Print Assumptions.  The model (Model/RecvLedger.v) is a transcription of
    Buffer / Connection.ack / EventsProcessor.register.release_stream / process_data_received /
    H2Protocol.connection_made / the Configuration window validators; `run init h = (s, o)` is the state and the
-   output list (ORecv = flow-controlled bytes received, OAck = acknowledge_received_data calls, ODrop = credit
-   forfeited by a release on a closing connection) after the history h of events
-   Open / Data / EndStream / Read / Wake / Cancel / Release / Close, in ANY order and on any number of streams. *)
+   output list (ORecv = flow-controlled bytes received, OAck = acknowledge_received_data calls, ODrop = ghost
+   marker of a release on a closing connection) after the history h of events
+   Open / Data / EndStream / Read / Wake / Cancel / Release / Close / Pause / Resume, in ANY order and on any
+   number of streams -- including reads on a buffer AFTER its stream was released and pauses of the transport
+   at any point.  `lookup_live` = EventsProcessor.streams.get; `lookup` also finds released buffers. *)
 From Coq Require Import ZArith List Bool.
 From GV Require Import Gen.Facts Model.RecvLedger Proofs.C08Proofs.
 From GV Require Proofs.C08Examples.   (* non-vacuity examples, checked with the theorems *)
@@ -20,12 +22,12 @@ Theorem C08_never_overcredited :
 Proof. exact never_overcredited. Qed.
 Print Assumptions C08_never_overcredited.
 
-(* (2) conservation: every received byte is either credited, or still queued in a REGISTERED buffer, or was
-   forfeited by a release on a closing connection *)
+(* (2) conservation: every received byte is either credited, or still queued in a REGISTERED buffer (held), or
+   left in a released buffer (forfeited: only a release on a closing connection leaves any, see (4''), (6')) *)
 Theorem C08_conservation :
   forall h s o, legal init h = true -> run init h = (s, o) ->
-  (forall x, received x o = credited x o + dropped x o + held x s) /\
-  received_conn o = credited_conn o + dropped_conn o + held_conn s.
+  (forall x, received x o = credited x o + held x s + forfeited x s) /\
+  received_conn o = credited_conn o + held_conn s + forfeited_conn s.
 Proof. exact conservation. Qed.
 Print Assumptions C08_conservation.
 
@@ -38,14 +40,15 @@ Print Assumptions C08_distinct_ids_legal.
 (* (3) back-pressure: a read(size) on a stream whose queue is p ++ r credits exactly the items of p, where p is
    the MINIMAL prefix it needs -- before every popped item the bytes already acknowledged were still short of
    `size` -- and it stops as soon as it has enough, or hits the EOF marker, or the queue is empty (then it
-   blocks); the items of r stay queued and un-credited (held), and no other stream is credited *)
+   blocks); the items of r stay queued and un-credited, and no other stream is credited.  The buffer may be a
+   registered or a released one (`lookup`) *)
 Theorem C08_read_credits_minimal_prefix :
   forall s sid size b s' o,
   lookup sid (reg s) = Some b -> bpend b = None -> 0 < size ->
   step s (Read sid size) = (s', o) ->
-  exists p r b', bq b = p ++ r /\ lookup sid (reg s') = Some b' /\ bq b' = r /\
+  exists p r b', bq b = p ++ r /\ lookup sid (reg s') = Some b' /\ bq b' = r /\ brel b' = brel b /\
     credited sid o = qsum p /\ credited_conn o = qsum p /\ (forall x, x <> sid -> credited x o = 0) /\
-    held sid s' = qsum r /\
+    queued sid s' = qsum r /\
     (forall p1 it p2, p = p1 ++ it :: p2 -> backed b + lsum p1 < size) /\
     (r = [] \/ size <= backed b + lsum p \/ exists p0 m, p = p0 ++ [m] /\ it_ack m = 0).
 Proof. exact read_backpressure. Qed.
@@ -56,9 +59,9 @@ Theorem C08_resumed_read_credits_minimal_prefix :
   forall s sid size b s' o,
   lookup sid (reg s) = Some b -> bpend b = Some size -> bq b <> [] ->
   step s (Wake sid) = (s', o) ->
-  exists p r b', bq b = p ++ r /\ lookup sid (reg s') = Some b' /\ bq b' = r /\
+  exists p r b', bq b = p ++ r /\ lookup sid (reg s') = Some b' /\ bq b' = r /\ brel b' = brel b /\
     credited sid o = qsum p /\ credited_conn o = qsum p /\ (forall x, x <> sid -> credited x o = 0) /\
-    held sid s' = qsum r /\
+    queued sid s' = qsum r /\
     (forall p1 it p2, p = p1 ++ it :: p2 -> backed b + lsum p1 < size) /\
     (r = [] \/ size <= backed b + lsum p \/ exists p0 m, p = p0 ++ [m] /\ it_ack m = 0).
 Proof. exact wake_backpressure. Qed.
@@ -67,19 +70,20 @@ Print Assumptions C08_resumed_read_credits_minimal_prefix.
 (* (3'') data arriving for an active (registered) call is queued, not credited *)
 Theorem C08_data_buffered_not_credited :
   forall s sid n pad b s' o,
-  lookup sid (reg s) = Some b -> step s (Data sid n pad) = (s', o) ->
+  lookup_live sid (reg s) = Some b -> step s (Data sid n pad) = (s', o) ->
   (forall x, credited x o = 0) /\ credited_conn o = 0 /\ received sid o = fcl n pad /\
   held sid s' = held sid s + fcl n pad.
 Proof. exact data_registered_not_credited. Qed.
 Print Assumptions C08_data_buffered_not_credited.
 
-(* (4) release on a live connection credits everything that is still queued, for that stream only, and
-   unregisters it *)
+(* (4) release on a live connection credits everything that is still queued, for that stream only, unregisters
+   it and leaves its buffer EMPTY (unacked_size() drains the queue) *)
 Theorem C08_release_credits_rest :
   forall s sid b s' o,
-  lookup sid (reg s) = Some b -> closing s = false -> step s (Release sid) = (s', o) ->
+  lookup_live sid (reg s) = Some b -> closing s = false -> step s (Release sid) = (s', o) ->
   credited sid o = qsum (bq b) /\ credited_conn o = qsum (bq b) /\ (forall x, x <> sid -> credited x o = 0) /\
-  lookup sid (reg s') = None /\ held sid s' = 0 /\ (forall x, x <> sid -> lookup x (reg s') = lookup x (reg s)).
+  lookup_live sid (reg s') = None /\ held sid s' = 0 /\ queued sid s' = 0 /\
+  (forall x, x <> sid -> lookup x (reg s') = lookup x (reg s)).
 Proof. exact release_credits_rest. Qed.
 Print Assumptions C08_release_credits_rest.
 
@@ -89,20 +93,20 @@ Theorem C08_release_idempotent :
 Proof. exact release_idempotent. Qed.
 Print Assumptions C08_release_idempotent.
 
-(* (4'') on a closing connection the release acknowledges nothing: the queued credit is forfeited
-   (this is why (6) and (7) are statements about live connections) *)
+(* (4'') on a closing connection the release acknowledges nothing: the queued credit stays in the released
+   buffer (this is why (6) and (7) are statements about live connections) *)
 Theorem C08_closing_release_forfeits :
   forall s sid b s' o,
-  lookup sid (reg s) = Some b -> closing s = true -> step s (Release sid) = (s', o) ->
+  lookup_live sid (reg s) = Some b -> closing s = true -> step s (Release sid) = (s', o) ->
   (forall x, credited x o = 0) /\ credited_conn o = 0 /\ dropped sid o = qsum (bq b) /\
-  dropped_conn o = qsum (bq b) /\ lookup sid (reg s') = None.
+  lookup_live sid (reg s') = None /\ held sid s' = 0 /\ forfeited sid s' = qsum (bq b).
 Proof. exact release_closing_forfeits. Qed.
 Print Assumptions C08_closing_release_forfeits.
 
 (* (5) DATA for an unknown / already finished stream is credited at once, in full *)
 Theorem C08_unknown_stream_credited_at_once :
   forall s sid n pad s' o,
-  lookup sid (reg s) = None -> step s (Data sid n pad) = (s', o) ->
+  lookup_live sid (reg s) = None -> step s (Data sid n pad) = (s', o) ->
   s' = s /\ received sid o = fcl n pad /\ credited sid o = fcl n pad /\
   received_conn o = fcl n pad /\ credited_conn o = fcl n pad.
 Proof. exact data_unregistered_credited_at_once. Qed.
@@ -112,10 +116,34 @@ Print Assumptions C08_unknown_stream_credited_at_once.
    are released so has the connection *)
 Theorem C08_no_leak :
   forall h s o, legal init h = true -> run init h = (s, o) -> closing s = false ->
-  (forall x, lookup x (reg s) = None -> credited x o = received x o) /\
-  (reg s = [] -> credited_conn o = received_conn o).
+  (forall x, lookup_live x (reg s) = None -> credited x o = received x o) /\
+  ((forall x, lookup_live x (reg s) = None) -> credited_conn o = received_conn o).
 Proof. exact no_leak. Qed.
 Print Assumptions C08_no_leak.
+
+(* (6') read after release: on a live connection every released buffer is empty, nothing is forfeited ... *)
+Theorem C08_released_buffers_empty :
+  forall h s o, run init h = (s, o) -> closing s = false ->
+  (forall x b, lookup x (reg s) = Some b -> brel b = true -> bq b = []) /\
+  (forall x, forfeited x s = 0) /\ forfeited_conn s = 0.
+Proof. exact released_buffers_empty. Qed.
+Print Assumptions C08_released_buffers_empty.
+
+(* (6'') ... so a read (or a resumed read) on it -- a reader left running after the call, a recv_message()
+   after the `async with` block -- acknowledges nothing a second time *)
+Theorem C08_read_on_empty_queue_credits_nothing :
+  forall s sid b e s' o,
+  lookup sid (reg s) = Some b -> bq b = [] -> (exists size, e = Read sid size) \/ e = Wake sid ->
+  step s e = (s', o) -> (forall x, credited x o = 0) /\ credited_conn o = 0 /\ queued sid s' = 0.
+Proof. exact read_empty_queue_credits_nothing. Qed.
+Print Assumptions C08_read_on_empty_queue_credits_nothing.
+
+(* (6''') credit never waits for write-readiness: pausing / resuming the transport is an identity step, so all
+   theorems above hold verbatim for histories with pauses anywhere (acknowledgements are made while paused) *)
+Theorem C08_pause_resume_identity :
+  forall s, step s Pause = (s, []) /\ step s Resume = (s, []).
+Proof. exact pause_resume_identity. Qed.
+Print Assumptions C08_pause_resume_identity.
 
 (* (7) exactly once: at every earlier moment (after the prefix h1) the credit of a stream is below what it had
    received then, credit and receipts only grow, and at the end they are equal *)
@@ -123,7 +151,7 @@ Theorem C08_exactly_once :
   forall h1 h2 s1 o1 s o,
   forallb event_ok (h1 ++ h2) = true -> legal init (h1 ++ h2) = true ->
   run init h1 = (s1, o1) -> run init (h1 ++ h2) = (s, o) -> closing s = false ->
-  forall x, lookup x (reg s) = None ->
+  forall x, lookup_live x (reg s) = None ->
   credited x o1 <= received x o1 /\ received x o1 <= received x o /\ credited x o1 <= credited x o /\
   credited x o = received x o.
 Proof. exact exactly_once. Qed.
